@@ -316,6 +316,17 @@ class HItem(BatchItemBase):
         self.completions += 1
         self.rt.emit("item_done", self.inst)
 
+    # Requests compare by WHAT they ask for (like a dataclass-style request object): two items with the same key are
+    # equal although they are different futures, possibly of different batches
+    def __eq__(self, other):
+        return isinstance(other, HItem) and other.key == self.key
+
+    def __ne__(self, other):
+        return not self.__eq__(other)
+
+    def __hash__(self):
+        return hash(("HItem", self.key))
+
     def __repr__(self):
         return "HItem#%s(%s,%s)" % (self.rt.label, self.kind, self.key)
 
